@@ -442,6 +442,34 @@ def oracle_mesh(kind, m, manifold=True):
         bad.append(('boundary_nodes', f'{bn} but the vertices of single-neighbour facets are {bn_want}'))
     if sorted(bn + inn) != list(range(nv)) or set(bn) & set(inn):
         bad.append(('interior_nodes', 'boundary and interior nodes do not partition the vertices'))
+    # nodes_satisfying / facets_satisfying / elements_satisfying, boundaries_only on and off, normal=
+    if manifold:
+        c0 = float(np.sort(m.p[0])[len(m.p[0]) // 2]) + 0.123
+        pred = lambda x: x[0] < c0
+        nvx = int(np.max(t)) + 1
+        maskn = np.asarray(m.p)[0, :nvx] < c0
+        maskf = np.asarray(m.p)[:, fac].mean(axis=1)[0] < c0
+        maske = np.asarray(m.p)[:, t].mean(axis=1)[0] < c0
+        chk = [('nodes_satisfying(pred)', m.nodes_satisfying(pred), np.nonzero(maskn)[0]),
+               ('nodes_satisfying(pred, boundaries_only=True)', m.nodes_satisfying(pred, boundaries_only=True), np.intersect1d(np.nonzero(maskn)[0], bn_want)),
+               ('facets_satisfying(pred)', m.facets_satisfying(pred), np.nonzero(maskf)[0]),
+               ('facets_satisfying(pred, boundaries_only=True)', m.facets_satisfying(pred, boundaries_only=True), np.intersect1d(np.nonzero(maskf)[0], single)),
+               ('elements_satisfying(pred)', m.elements_satisfying(pred), np.nonzero(maske)[0])]
+        if m.p.shape[0] > 1:
+            nrm = np.zeros(m.p.shape[0]); nrm[0] = 1.0
+            try:                # the orientation needs the geometry (normals): skipped on combinatorial / degenerate cells
+                ob = m.facets_satisfying(pred, boundaries_only=True, normal=nrm)
+            except Exception:
+                ob = None
+            if ob is not None:
+                chk.append(('facets_satisfying(pred, boundaries_only=True, normal=e_x)', np.asarray(ob), np.intersect1d(np.nonzero(maskf)[0], single)))
+                if not (hasattr(ob, 'ori') and len(ob.ori) == len(np.asarray(ob)) and set(np.asarray(ob.ori).tolist()) <= {0, 1}):
+                    bad.append(('satisfying', 'facets_satisfying(normal=) does not return an orientation 0/1 per facet'))
+        for what, got, want in chk:
+            if np.asarray(got).tolist() != np.asarray(want).tolist():
+                bad.append(('satisfying', f'{what} = {np.asarray(got).tolist()[:10]} but the predicate set'
+                            f'{" intersected with the boundary set" if "boundaries_only" in what else ""} is {np.asarray(want).tolist()[:10]}'))
+                break
     # incidence matrices
     p2f = m.p2f
     p2t = m.p2t
